@@ -503,3 +503,59 @@ Section DriveInterrupts.
       + inversion H; subst. destruct Hin as [<-|[]]. eapply call_interrupt_from_segment; eauto.
   Qed.
 End DriveInterrupts.
+
+(* ---------- the successors of an interrupt-after node are held pending, not started ----------
+   When the loop interrupts after computing the tasks [ready] from the outputs of the completed tasks
+   (no rerun, no nested interrupt among them), every one of those tasks is a pending input of the
+   checkpoint, with the input computed for it, and by the after_stops_successors theorems the segment ends there:
+   none of them is submitted. *)
+Section AfterPending.
+  Context {V CS GS ENV SCP SINFO : Type}.
+  Variable zero : V.
+  Variable fold : CS -> list (N * V) -> res CS.
+  Variable getr : CS -> res (CS * list (N * V)).
+  Variable before after : list N.
+
+  Notation texecT := (@texec V SCP SINFO).
+  Notation cptT := (@checkpoint V CS GS SCP).
+  Notation infT := (@iinfo GS SINFO).
+
+  Lemma decide_successors_pending : forall cs (gs1 : GS) (rs : list (N * texecT)) (i : infT) (c : cptT) cs2 ready,
+    decide zero fold getr before after cs gs1 rs = Interrupted i c ->
+    subcps rs = [] -> reruns rs = [] ->
+    calc fold getr cs (outs rs) = Ok (cs2, ready) ->
+    incl ready (cp_inputs c).
+  Proof.
+    unfold decide; intros cs gs1 rs i c cs2 ready H Hs Hr Hc.
+    destruct (first_fail rs); try discriminate.
+    destruct (negb (is_nil (subcps rs) && is_nil (reruns rs))) eqn:Hrr; [rewrite Hs, Hr in Hrr; discriminate|].
+    destruct (is_nil rs); try discriminate.
+    rewrite Hc in H.
+    destruct (nlist_get kEnd ready); try discriminate.
+    destruct (is_nil (hits before ready) && is_nil (afters after rs)); try discriminate.
+    destruct (calc fold getr cs2 []) as [[cs4 ready2]| |]; try discriminate.
+    destruct (nlist_get kEnd ready2); try discriminate.
+    apply plain_interrupt_inv in H as [_ ->]. simpl. apply incl_appl. apply incl_refl.
+  Qed.
+
+  Lemma edecide_successors_pending : forall cs (gs1 : GS) (c : N * texecT) rest sched' (i : infT) (cp : cptT) cs2 ready,
+    edecide zero fold getr before after false cs gs1 c rest sched' = EStop (Interrupted i cp) ->
+    subcps [c] = [] -> reruns [c] = [] ->
+    calc fold getr cs (outs [c]) = Ok (cs2, ready) ->
+    incl ready (cp_inputs cp).
+  Proof.
+    unfold edecide; intros cs gs1 c rest sched' i cp cs2 ready H Hs Hr Hc.
+    destruct (first_fail [c]); try discriminate.
+    destruct (negb (is_nil (subcps [c]) && is_nil (reruns [c]))) eqn:Hrr; [rewrite Hs, Hr in Hrr; discriminate|].
+    rewrite Hc in H.
+    destruct (nlist_get kEnd ready); try discriminate.
+    destruct (is_nil (hits before ready) && is_nil (afters after [c])); try discriminate.
+    destruct (first_fail rest); try discriminate.
+    destruct (negb (is_nil (subcps rest) && is_nil (reruns rest))).
+    - injection H as H. apply rerun_interrupt_inv in H as (cs1 & _ & _ & ->). simpl.
+      apply incl_appl. apply incl_refl.
+    - destruct (calc fold getr cs2 (outs rest)) as [[cs4 ready2]| |]; try discriminate.
+      destruct (nlist_get kEnd ready2); try discriminate.
+      unfold plain_interrupt in H. inversion H; subst. simpl. apply incl_appl. apply incl_refl.
+  Qed.
+End AfterPending.
